@@ -425,6 +425,15 @@ fn canonical(calls: &str) -> Option<Vec<u8>> {
                 s.push(b'}');
             }
             "kind" => match v {
+                "RangeBetween" | "ReachableToMergeBase"
+                    if i == 0
+                        || !items.get(i + 1).map_or(false, |n| {
+                            ["ref:", "pfx:", "rl:", "nth:", "sib:"].iter().any(|p| n.starts_with(p))
+                        }) =>
+                {
+                    // a side without any anchor call (`A...^{/!-}`, `^{/!-}..B`): no canonical text
+                    return None;
+                }
                 "RangeBetween" => {
                     // `^-n` prints kind after par; not in the canonical grammar
                     if i > 0 && items[i - 1].starts_with("par:") && items.get(i + 2) == Some(&"done") && items.len() == i + 4 {
